@@ -281,3 +281,14 @@ func TimeIn(name string, zone int) time.Time {
 	}
 	return t
 }
+
+// StrNIn is an arbitrary string of exactly n bytes, each in [lo,hi].
+func StrNIn(name string, n int, lo, hi byte) string {
+	s := []byte(StrN(name, n))
+	for i := range s {
+		if s[i] < lo || s[i] > hi {
+			panic(skip{"StrNIn outside range"})
+		}
+	}
+	return string(s)
+}
